@@ -346,3 +346,45 @@ func ReplayTest() string {
 	json.Unmarshal(body, &env)
 	return env.Test
 }
+
+// ---------------------------------------------------------------------------------------------
+// Post-shrink minimisation support.
+
+type caught struct{}
+
+type catchFailer struct{ msg string }
+
+func (c *catchFailer) Fatalf(format string, args ...any) {
+	c.msg = fmt.Sprintf(format, args...)
+	panic(caught{})
+}
+func (c *catchFailer) Logf(format string, args ...any) {}
+
+// Fails runs fn with a Failer that captures the verdict; it reports whether fn failed and the message.
+func (r *Run) Fails(fn func(f Failer)) (failed bool, msg string) {
+	cf := &catchFailer{}
+	defer func() {
+		if p := recover(); p != nil {
+			if _, ok := p.(caught); !ok {
+				panic(p)
+			}
+			failed, msg = true, cf.msg
+		}
+	}()
+	fn(cf)
+	return false, ""
+}
+
+// Last returns the last case registered with Current.
+func (r *Run) Last() any {
+	r.mu.Lock()
+	defer r.mu.Unlock()
+	return r.current
+}
+
+// Replace overrides the failing case and its message (after an own minimisation pass).
+func (r *Run) Replace(c any, msg string) {
+	r.mu.Lock()
+	r.current, r.lastMsg = c, msg
+	r.mu.Unlock()
+}
